@@ -109,6 +109,13 @@ fn reratio_converter() -> Option<Converter> {
     cooklang::convert::ConverterBuilder::new().with_units_file(cooklang::convert::UnitsFile::bundled()).ok()?.with_units_file(layer).ok()?.finish().ok()
 }
 
+/// bundled units + two extend-only layers that both give `cup` a ratio: the later layer decides
+fn two_extends_converter() -> Option<Converter> {
+    let l1: cooklang::convert::UnitsFile = toml::from_str("[extend.units]\ncup = { ratio = 0.25 }\nlb = { ratio = 500 }\n").ok()?;
+    let l2: cooklang::convert::UnitsFile = toml::from_str("[extend.units]\nc = { ratio = 0.24 }\n").ok()?;
+    cooklang::convert::ConverterBuilder::new().with_units_file(cooklang::convert::UnitsFile::bundled()).ok()?.with_units_file(l1).ok()?.with_units_file(l2).ok()?.finish().ok()
+}
+
 /// the same key looked up alternately on two converters that give it different meanings:
 /// each answer must follow the converter's own unit table
 fn check_alternation(a: &Converter, b: &Converter, out: &mut Vec<Violation>, local: &mut Local) {
@@ -414,7 +421,7 @@ impl IsText for Value {
 fn check_recipes(out: &mut Vec<Violation>, local: &mut Local) {
     let parser = CooklangParser::new(Extensions::all(), Converter::bundled());
     let conv = parser.converter();
-    let atoms = ["@a{1%kg}", "@b{2}", "@c{some%kg}", "@d{1%foo}", "#p{3}", "~t{5%min}", "heat to 180 C ", "@e{1-2%cups}", "@f{1 1/2%tsp}", "#q{big}", "@g{3%l}", "~{90%s}"];
+    let atoms = ["@a{1%kg}", "@b{2}", "@c{some%kg}", "@d{1%foo}", "#p{3}", "~t{5%min}", "heat to 180 C ", "@e{1-2%cups}", "@f{1 1/2%tsp}", "#q{big}", "@g{3%l}", "~{90%s}", "then add 500 ml and wait 90 min ", "cut 20 cm or 2 cups of it "];
     let n = atoms.len();
     // all subsets of size <= 3 in order + the full recipe
     let mut recipes: Vec<String> = Vec::new();
@@ -679,6 +686,26 @@ pub fn run(tier: Tier) {
     } else {
         c.note("the layer with an imperial default system could not be built; that part was skipped");
     }
+    // two extend layers on one unit: conversions follow the later one
+    if let Some(x) = two_extends_converter() {
+        sweep("C09 two extend layers that both set the ratio of one unit", 1, |_| json!({"kind": "two extends"}), move |_, local| {
+            let mut out = Vec::new();
+            for (from, to, expect) in [("cup", "ml", 240.0), ("c", "l", 0.24), ("lb", "g", 500.0), ("l", "cups", 1.0 / 0.24)] {
+                local.evaluations += 1;
+                local.nontrivial += 1;
+                match x.convert(ConvertValue::Number(1.0), ConvertUnit::Key(from), ConvertTo::Unit(ConvertUnit::Key(to))) {
+                    Ok((ConvertValue::Number(got), _)) if close(got, expect, 1e-9, 1e-300) => {}
+                    other => out.push(Violation::new("conversion differs from the unit definitions of the layers", format!("bundled + `cup = {{ ratio = 0.25 }}` + `c = {{ ratio = 0.24 }}`: 1 {from} -> {to} gave {other:?}, the later layer gives {expect}"), json!({"kind": "two extends"}))),
+                }
+            }
+            out
+        });
+        if c.has_violations() {
+            return;
+        }
+    } else {
+        c.note("the two extend layers could not be built; that part was skipped");
+    }
     // the same keys on two converters that disagree about them, alternately
     if let Some(b) = reratio_converter() {
         let a = Converter::bundled();
@@ -738,6 +765,16 @@ pub fn replay(case: &J) -> Vec<Violation> {
                     check_quantity_ops(&e2, i, &val, &mut out, &mut local);
                     let op = case["op"].as_str().unwrap_or("");
                     out.retain(|v| v.case["op"] == op);
+                }
+            }
+        }
+        "two extends" => {
+            if let Some(x) = two_extends_converter() {
+                for (from, to, expect) in [("cup", "ml", 240.0), ("c", "l", 0.24), ("lb", "g", 500.0)] {
+                    match x.convert(ConvertValue::Number(1.0), ConvertUnit::Key(from), ConvertTo::Unit(ConvertUnit::Key(to))) {
+                        Ok((ConvertValue::Number(got), _)) if close(got, expect, 1e-9, 1e-300) => {}
+                        other => out.push(Violation::new("conversion differs from the unit definitions of the layers", format!("1 {from} -> {to} gave {other:?}, expected {expect}"), case.clone())),
+                    }
                 }
             }
         }
